@@ -81,8 +81,15 @@ static int scan_module(struct context_data *ctx, int ep, int chain)
      * Higher limit for MEDs, defiance.crybaby.5 has blocks with 2048+ rows. */
     const int row_limit = IS_PLAYER_MODE_MED() ? 3200 : 512;
 
-    if (mod->len == 0)
+    if (mod->len == 0) {
+	/* Nothing to scan, but the player still takes its initial speed
+	 * and tempo from the first order's data. */
+	memset(&m->xxo_info[0], 0, sizeof(struct ord_data));
+	m->xxo_info[0].speed = mod->spd;
+	m->xxo_info[0].bpm = mod->bpm;
+	m->xxo_info[0].gvl = mod->gvl;
 	return 0;
+    }
 
     for (i = 0; i < mod->len; i++) {
 	pat = mod->xxo[i];
